@@ -594,7 +594,7 @@ static Case gen_history(int mode) {
     // where the descriptor counter stands at the start of the history: 0, just below INT_MAX, just below a
     // power of two, or anywhere in the first thousand (descriptor values are part of the input space)
     int64_t sc = 0;
-    if (mode == MODE_C14) switch (weighted({4, 2, 3, 3})) {
+    if (mode == MODE_C14 || coin(1, 3)) switch (weighted({4, 2, 3, 3})) {
         case 1: sc = INT_MAX - pick(0, 6); break;
         case 2: sc = ((int64_t)1 << pick(1, 30)) - pick(0, 5); break;
         case 3: sc = pick(0, 1000); break;
